@@ -53,7 +53,12 @@ SEM_RULE = ("Family R, where listed, is a set of seeded random pattern trees (vl
 
 @check("C01")
 def c01(tier, replay):
-    return sem_check("C01", tier, replay, ["--no-ascii"], kinds_sem=("first", "compile"), rule=SEM_RULE,
+    return sem_check("C01", tier, replay, ["--no-ascii"], kinds_sem=("first", "compile", "emit"), want=("sem", "compile"),
+                     rule=SEM_RULE + " In addition the dumped no_opt program of every pattern must equal, instruction by instruction at the "
+                     "level of its control-flow skeleton (jump targets, loop bounds / ids / exits, group numbers, per-iteration capture resets, "
+                     "look-around extents and continuations, flags of anchors and boundaries; single-character matchers collapsed), the "
+                     "program that Compile.tla - the parser lowering and emitter as a TLA+ function - produces from the pattern tree "
+                     "(JudgeCompile.tla).",
                      assumptions=["ESSem.tla is a faithful transcription of ECMA-262 22.2.2 on code point input",
                                   "case relations of the model alphabet (spec/Alphabet.tla) are transcribed from the UCD by hand"])
 
@@ -85,13 +90,37 @@ def c03(tier, replay):
                      " Violations: any (haystack, start) at which the no_opt program's match sequence differs from the optimized one's.")
 
 
+def iter_model(tier):
+    def run(R, v, cov):
+        # Iter.tla: every attempt table on a short haystack, every start, every call history
+        src = open(os.path.join(C.SPEC, "MCIter.cfg")).read().replace("MaxLen = 3", "MaxLen = %d" % (3 if tier == "quick" else 4))
+        cfg = "MCIter_run_%d.cfg" % os.getpid()
+        open(os.path.join(C.SPEC, cfg), "w").write(src)
+        try:
+            res = C.tlc("MCIter", cfg, workers=4, xmx="4g", timeout=900, workdir=R["work"])
+        finally:
+            os.remove(os.path.join(C.SPEC, cfg))
+        if res.distinct < 1000:
+            raise C.ToolError("MCIter explored only %d states" % res.distinct)
+        cov["states"] += res.distinct
+        cov["transitions"] += res.generated
+        cov["iterator_model"] = {"states": res.distinct, "transitions": res.generated}
+        C.log("Iter.tla: %d states, %d transitions" % (res.distinct, res.generated))
+    return run
+
+
 @check("C09")
 def c09(tier, replay):
     return sem_check("C09", tier, replay, ["--no-ascii"], kinds_sem=("iter", "seq"), rule=SEM_RULE +
+                     " Iter.tla states the iterator as a state machine (cursor, lastIndex advance, fused None) and TLC model-checks it for "
+                     "every table of anchored-attempt outcomes on a haystack of 3 (thorough: 4) characters, every start and every call "
+                     "history: starts strictly increase, no overlap, at most len+1 matches, None is absorbing, the iterator exhausts; "
+                     "JudgeSem's UnfoldObserved is the same machine run to completion on the engine's own first matches."
                      " Violations: the yielded sequence is not the lastIndex unfolding of the engine's own first matches, "
                      "is not strictly increasing/non-overlapping, exceeds len+1 matches, is non-empty for start > len, "
                      "or the iterator yields after None (polled three more times).",
-                     use_fails=lambda f: "after returning None" in f["what"] or "more matches" in f["what"])
+                     use_fails=lambda f: "after returning None" in f["what"] or "more matches" in f["what"],
+                     extra=None if replay else iter_model(tier))
 
 
 @check("C13")
@@ -145,12 +174,16 @@ def c06(tier, replay):
         for line in open(paths["chk"]):
             r = json.loads(line)
             n += 1
-            for f in r["fails"][:2]:
+            comp = r.get("compile", {})
+            if comp and (comp.get("opt") != "ok" or comp.get("noopt") != "ok") and "panic" in json.dumps(comp):
+                v.violation("debug-assertions build: compiling /%s/%s panicked: %s" % (r.get("pats"), r.get("flags"), comp),
+                            {"pipeline": "sem", "case": S.small_case(r), "kind": "fail-checked", "what": json.dumps(comp)})
+            for f in r.get("fails", [])[:2]:
                 h = f.get("h")
                 v.violation("debug-assertions build: /%s/%s on %s: %s [%s]" % (r.get("pats"), r.get("flags"),
                             r["hays"][h] if h is not None else None, f["what"], f.get("var")),
                             {"pipeline": "sem", "case": S.small_case(r, h), "kind": "fail-checked", "what": f["what"]})
-            for b in r["bad"][:2]:
+            for b in r.get("bad", [])[:2]:
                 v.violation("debug-assertions build: bad range /%s/%s: %s" % (r.get("pats"), r.get("flags"), b["what"]),
                             {"pipeline": "sem", "case": S.small_case(r, b["h"]), "kind": "bad-checked"})
         for c in crashes:
@@ -162,7 +195,7 @@ def c06(tier, replay):
         trace_notes(R, v, cov)
 
     return sem_check("C06", tier, replay, [], kinds_sem=("event", "traceinv"), use_bad=True, use_fails=lambda f: True,
-                     want=("sem", "trace"), families=["F1", "F4", "F6", "F7", "F8", "F9", "F14", "F20"] if tier == "quick" else SC.ALLF + ["F14", "F20", "R"],
+                     want=("sem", "trace"), families=["F1", "F4", "F6", "F7", "F8", "F9", "F11", "F14", "F20"] if tier == "quick" else SC.ALLF + ["F14", "F20", "R"],
                      trace_every=23 if tier == "quick" else 5, max_traces=4000 if tier == "quick" else 50000,
                      extra=checked_build,
                      rule="TLC enumerates the families (haystacks mix 1-, 2-, 3- and 4-byte characters at both ends, the empty haystack "
@@ -178,7 +211,7 @@ def c06(tier, replay):
 
 @check("C16")
 def c16(tier, replay):
-    return sem_check("C16", tier, replay, ["--no-ascii", "--api"], kinds_sem=("api",), want=("sem", "api"),
+    return sem_check("C16", tier, replay, ["--no-ascii", "--api"], kinds_sem=("api", "first", "seq"), want=("sem", "api"),
                      level="model_checking",
                      rule="TLC enumerates the named/duplicate-named group family F10 (plus the capture families F3, F4) and all "
                      "haystacks up to the bound; for every match of every iteration the runner records captures, group(0..n+1), groups(), "
